@@ -1500,8 +1500,12 @@ impl<T: Transport, Env: UtpEnvironment> VirtualSocket<T, Env> {
     }
 
     fn unsent_data_exists(&mut self) -> bool {
-        // either unsegmented data exists, or unsent data exists or both
+        // either unsegmented data exists, or unsent data exists or both.
+        // An outstanding MTU probe counts as well: if it is lost it is popped and its bytes are
+        // segmented again into several segments, so nothing (not even the FIN) may be numbered
+        // after it yet.
         self.this_poll.unsegmented_data > 0
+            || self.user_tx_segments.is_mtu_probe_outstanding()
             || self
                 .user_tx_segments
                 .iter_mut_for_sending(None)
